@@ -66,13 +66,13 @@ def model_check(ctx, prop=P):
     runs = [("placement, symbols, relocation sites; every action", mc_cfg(
         ("place", "syms", "reloc"), statuses=("gdef", "gref"), relsizes=(1,), announce=True), True)]
     if thorough:
-        runs = [("every action (coverage)", small, True),
-                ("place", mc_cfg(("place",), sizes=(0, 1, 3, 4), aligns=(1, 2, 4)), False),
+        runs = [("every action", small, True),
+                ("place", mc_cfg(("place",), sizes=(0, 1, 3), aligns=(1, 2, 4)), False),
                 ("place 2+2", mc_cfg(("place",), sizes=(1, 3), aligns=(1, 4), shape="2+2"), False),
-                ("place 2+1+1", mc_cfg(("place",), sizes=(1, 2), aligns=(1, 2), shape="2+1+1"), False),
+                ("place 2+1+1", mc_cfg(("place",), sizes=(1,), aligns=(1, 2), shape="2+1+1"), False),
                 ("syms", mc_cfg(("syms",), statuses=("absent", "local", "gdef", "gref")), False),
-                ("syms 3 objects", mc_cfg(("syms",), syms3=True), False),
-                ("reloc", mc_cfg(("reloc",), relsizes=(2, 3)), False),
+                ("syms 3 objects", mc_cfg(("syms",), statuses=("gdef", "gref"), syms3=True), False),
+                ("reloc", mc_cfg(("reloc",), relsizes=(3,)), False),
                 ("free choices", mc_cfg(("place",), sizes=(1, 3), aligns=(2,), free=True), False)]
     covered = {}
     for label, cfg, cov in runs:
